@@ -698,10 +698,19 @@ func typeCheck(src string) (bool, string) {
 
 type lockedImporter struct{}
 
+var importCache sync.Map // path -> *types.Package (the source importer consults go/build before its own cache)
+
 func (lockedImporter) Import(path string) (*types.Package, error) {
+	if p, ok := importCache.Load(path); ok {
+		return p.(*types.Package), nil
+	}
 	srcImporterMu.Lock()
 	defer srcImporterMu.Unlock()
-	return srcImporter.Import(path)
+	p, err := srcImporter.Import(path)
+	if err == nil && p != nil {
+		importCache.Store(path, p)
+	}
+	return p, err
 }
 
 // contexts wraps a printed snippet of the given root category into file bodies.
